@@ -151,9 +151,9 @@ class SimFI:
         self.frozen = False              # probe clones do not mutate
         self.trailing = True
         self.msgsets = ALL_MSGSETS
-        for url in {prof_url, svc_url}:
-            scheme, host, port, _ = url_parts(url)
-            net.register(scheme, host, port, self.handle)
+        for url in sorted({prof_url, svc_url}):
+            scheme, host, port, target = url_parts_q(url)
+            net.register(scheme, host, port, self.handle, target)
 
     # -- profile versions -------------------------------------------------------
     def new_profile(self, older=False):
@@ -403,9 +403,9 @@ class SimFI:
         c.behaviour_fn = lambda fi, seen: behaviour
         c.acct_fn = None
         c.stmt_status_fn = None
-        for url in {self.prof_url, self.svc_url}:
-            scheme, host, port, _ = url_parts(url)
-            net.register(scheme, host, port, c.handle)
+        for url in sorted({self.prof_url, self.svc_url}):
+            scheme, host, port, target = url_parts_q(url)
+            net.register(scheme, host, port, c.handle, target)
         return c
 
 
